@@ -246,7 +246,9 @@ SBuf::vappendf(const char *fmt, va_list vargs)
     Must(fmt != nullptr);
     int sz = 0;
     //reserve twice the format-string size, it's a likely heuristic
-    size_type requiredSpaceEstimate = strlen(fmt)*2;
+    // +1: vsnprintf() stores a terminator even for an empty format, and rawSpace(0)
+    // may answer bytes that other SBufs sharing this blob still use
+    size_type requiredSpaceEstimate = strlen(fmt)*2 + 1;
 
     char *space = rawSpace(requiredSpaceEstimate);
     va_list ap;
